@@ -9,6 +9,8 @@ FINALS = {0: "observe", 1: "copy", 2: "copyrows", 3: "copycols", 4: "copy_filled
 FN = {0: [], 1: ["of_mod2sparse_copy"], 2: ["of_mod2sparse_copyrows"], 3: ["of_mod2sparse_copycols"], 4: ["of_mod2sparse_copy_filled_matrix"],
       5: ["of_mod2sparse_to_dense", "of_mod2dense_to_sparse"]}
 KN = "idcf"   # insert, delete(find+delete), clear, fill-all
+RECYCLE_Q = ["3120", "320", "310", "3210"]
+RECYCLE_T = ["3110", "3100", "3121", "3200"]
 
 INFO = {
     "level": "model_checking",
@@ -16,7 +18,7 @@ INFO = {
                    "followed by one derived-matrix operation with every index vector, executed by CBMC on the real code (allocation blocks of 3 entries "
                    "through the OPENFEC_VERIF_SPARSE_BLOCK hook); after each sequence every cell, row and column is observed against the set model; "
                    "pointer checks and memory-leak check on",
-    "assumptions": ["dimensions 2x3 (1x34 for the conversions), N <= 2 (quick) / 3 (thorough): longer histories and larger matrices are not decided",
+    "assumptions": ["dimensions 2x3 (1x34 for the conversions), N <= 2 (quick) / 3 (thorough), plus the listed 4-operation recycling histories (fill, delete, clear, insert orders): longer histories and larger matrices are not decided",
                     "allocation succeeds (of_alloc_entry does not check calloc)"],
     "trusted": [],
 }
@@ -68,6 +70,10 @@ def jobs(tier, seed):
             add("0", 4, R=3, C=2, fix0=f0)
         add("3", 2)
         add("3", 3)
+        # free-list recycling across block boundaries and across clear (6 entries = two blocks of 3): fill, delete an entry of either
+        # block, (clear,) insert again - a free list that survives its block, or a block that survives its free list, shows here
+        for p in RECYCLE_Q:
+            add(p, 0)
         for f0 in (0, 31, 32, 33):
             add("0", 5, R=1, C=34, fix0=f0, blk=3)
     else:
@@ -93,6 +99,8 @@ def jobs(tier, seed):
                 add(p, 4, R=3, C=2, fix0=f0)
             add("0", 3, fix0=f0)
             add("00", 3, fix0=f0)
+        for p in RECYCLE_Q + RECYCLE_T:
+            add(p, 0)
         add("3", 4, R=3, C=2)
         for f0 in range(6):
             add("31", 4, R=3, C=2, fix0=f0)
